@@ -49,3 +49,32 @@ def gas_params(rng):
 
 def relclose(a, b, rtol, atol=0.0):
     return abs(a - b) <= rtol * max(abs(a), abs(b)) + atol
+
+
+# ---------------------------------------------------------------------------------------------------------------------------
+# the container / dtype forms in which a scalar pressure may legitimately be handed to a correlation (measured on the unchanged
+# tree: every scalar-accepting correlation returns the same number for all of them; the gas functions, whose root finder needs a
+# true scalar, do not take one-element arrays)
+SCALAR_FORMS = [("numpy float64 scalar", lambda v: np.float64(v)), ("0-d array", lambda v: np.array(float(v))),
+                ("Python int", lambda v: int(v)), ("numpy int64 scalar", lambda v: np.int64(v)), ("numpy float32 scalar", lambda v: np.float32(v))]
+ARRAY1_FORMS = [("one-element float array", lambda v: np.array([float(v)])), ("one-element int64 array", lambda v: np.array([int(v)])),
+                ("one-element int32 array", lambda v: np.array([int(v)], dtype=np.int32))]
+
+
+def check_forms(f, p_int, forms, report, label, inp):
+    """f: pressure -> value.  p_int: an integer-valued pressure (so that every form denotes the same number).  Compares f on each
+    form with f(float(p_int)); report(what, inp, observed, expected) is called for a disagreement or an exception.  Returns #evaluations."""
+    want = float(np.ravel(np.asarray(f(float(p_int)), float))[0])
+    n = 0
+    for name, mk in forms:
+        n += 1
+        try:
+            got = np.asarray(f(mk(p_int)), float).ravel()
+        except Exception as e:  # noqa: BLE001
+            report(f"{label} fails when the pressure is given as a {name}", dict(**inp, p=float(p_int), form=name), repr(e)[:160], want)
+            continue
+        tol = 2e-5 if "float32" in name else 1e-12
+        if got.size != 1 or not relclose(float(got[0]), want, tol, 1e-300):
+            report(f"{label} depends on the container / dtype in which the pressure is given", dict(**inp, p=float(p_int), form=name),
+                   [float(x) for x in got[:3]], want)
+    return n
